@@ -231,7 +231,12 @@ pub struct Rans64Encoder<P: ParallelVariant> {
 impl<P: ParallelVariant> Rans64Encoder<P> {
     /// Create encoder from symbol frequencies
     pub fn new(frequencies: &[u32; 256]) -> Result<Self> {
-        let total_freq: u32 = frequencies.iter().sum();
+        // the table may come straight from a compressed stream (RansCompressor::decompress)
+        let total: u64 = frequencies.iter().map(|&f| f as u64).sum();
+        if total > u32::MAX as u64 {
+            return Err(ZiporaError::invalid_data("Symbol frequencies overflow the 32-bit total"));
+        }
+        let total_freq = total as u32;
         if total_freq == 0 {
             return Ok(Self {
                 symbols: [Rans64Symbol::new(0, 0); 256],
@@ -550,7 +555,8 @@ impl<P: ParallelVariant> Rans64Decoder<P> {
 
         let mut state = Rans64State::from_state(initial_state);
         let mut pos = data_len - 8;
-        let mut result = Vec::with_capacity(output_length);
+        // `output_length` is read from the stream by RansCompressor::decompress: a capacity *hint* only
+        let mut result = Vec::with_capacity(output_length.min(1 << 20));
 
         for _ in 0..output_length {
             let symbol = self.decode_symbol(&mut state, encoded_data, &mut pos)?;
